@@ -334,7 +334,7 @@ impl Report {
         let mut replay_paths = vec![];
         if !unlisted.is_empty() {
             code = 1;
-            let dir = format!("/verif/replays/{}", self.pid);
+            let dir = format!("{}/replays/{}", root(), self.pid);
             let _ = std::fs::create_dir_all(&dir);
             for (i, v) in unlisted.iter().enumerate().take(25) {
                 let path = format!("{}/{:03}.json", dir, i);
@@ -379,13 +379,16 @@ impl Report {
             "wall_s": self.started.elapsed().as_secs_f64(),
             "violations": unlisted.len(),
         });
-        let _ = std::fs::create_dir_all("/verif/evidence");
-        std::fs::write(format!("/verif/evidence/{}.json", self.pid), serde_json::to_string_pretty(&ev).unwrap()).expect("write evidence");
+        let _ = std::fs::create_dir_all(format!("{}/evidence", root()));
+        std::fs::write(format!("{}/evidence/{}.json", root(), self.pid), serde_json::to_string_pretty(&ev).unwrap()).expect("write evidence");
         println!("{} tier={} evaluations={} transitions={} states={} validated={} violations(unlisted keys)={} known={} wall={:.1}s exit={}",
             self.pid, self.tier, self.evaluations, self.transitions, states, self.validated, unlisted.len(), matched.len(), self.started.elapsed().as_secs_f64(), code);
         code
     }
 }
+
+/// Root of the verification tree: `VERIF_ROOT` (set by ./check to its own directory), default /verif.
+pub fn root() -> String { std::env::var("VERIF_ROOT").unwrap_or_else(|_| "/verif".to_string()) }
 
 pub fn hash64<T: std::hash::Hash>(t: &T) -> u64 {
     use std::hash::Hasher;
@@ -398,12 +401,12 @@ pub struct Findings { entries: Vec<Value> }
 
 impl Findings {
     pub fn load() -> Self {
-        let v: Value = std::fs::read_to_string("/verif/known_findings.json").ok().and_then(|s| serde_json::from_str(&s).ok()).unwrap_or(json!({"findings": []}));
+        let v: Value = std::fs::read_to_string(format!("{}/known_findings.json", root())).ok().and_then(|s| serde_json::from_str(&s).ok()).unwrap_or(json!({"findings": []}));
         let mut entries = v["findings"].as_array().cloned().unwrap_or_default();
         // data lists: {"keys_file": "known_findings/x.json"} -> array of keys
         for e in entries.iter_mut() {
             if let Some(f) = e.get("keys_file").and_then(|x| x.as_str()) {
-                if let Ok(s) = std::fs::read_to_string(format!("/verif/{}", f)) {
+                if let Ok(s) = std::fs::read_to_string(format!("{}/{}", root(), f)) {
                     if let Ok(Value::Array(a)) = serde_json::from_str::<Value>(&s) {
                         let mut ks = e["keys"].as_array().cloned().unwrap_or_default();
                         ks.extend(a);
